@@ -451,6 +451,15 @@ def check_discarded_composition(chk, f, rule="FF5"):
         ok_init = K(c0).equals(ONE)
         chk.verdict(rule, (f, n), f"{acc} starts at {A.neg_const(inits[0])}: nothing discarded yet", True if ok_init else False,
                     f"{f.short}: with the initial value {A.neg_const(inits[0])} of `{acc}` the returned weight is not 0 before the first cut")
+        # representation: the (small) discarded weight is accumulated itself.  Kept as the complement -- acc the kept weight near 1 and the
+        # result 1 - acc -- every discarded weight below the rounding unit of 1.0 (squared weights < 1e-16, i.e. local errors < 1e-8) is
+        # lost by cancellation: the sweep reports 0 for a truncation that did discard something.
+        if Epoly.equals(ONE - ACC):
+            chk.bad(rule, (f, Eret), Eret.value, f"{f.short}: the truncation error is returned as `{A.short(Eret.value, 40)}` with `{acc}` the *kept* weight "
+                    f"(it starts at {A.neg_const(inits[0])} and is multiplied by 1 - x): algebraically the same, but in floating point 1 - (1 - x) is 0 for "
+                    f"every squared weight x below 1.1e-16 -- truncations with local errors below 1e-8 are reported as exact")
+        elif Epoly.equals(ACC):
+            chk.ok(rule, (f, Eret), f"{f.short}: `{acc}` is the discarded weight itself (no cancellation against 1)")
         step_sq = K(got).equals(K(ACC) * (ONE - X))            # x is a squared weight
         step_lin = K(got).equals(K(ACC) * (ONE - X * X))       # x is the weight itself
         chk.verdict(rule, (f, n), n, True if (step_sq or step_lin) else False,
